@@ -271,7 +271,7 @@ func propC08(o *out, r *rng, thorough bool) {
 		"9223372036854775808ns", "-9223372036854775807ns", "-9223372036854775808ns", "15250w1d23h47m16s854ms775u807ns", "15251w", "2562047h47m16s854ms775u807ns",
 		"", "-", "1", "s", "1x", "1n", "1nss", "1.5s", "1 s", "1s ", "+1s", "--1s", "1s-1s", "１s", "1µs", "1µ", "1us", "1mss", "1msm", "0s", "00000s", "0w0d", "1h1h", "9999999999999999999999s",
 		// leading zeros are decimal digits, not a base prefix; a bare m after the two-byte µ; digits only
-		"h1", "s10", "h1m30", "-w1d1", "m", "ms5", "1h2", "1h m", "h", "1hh1", "µ1", "u1u", "1s2m3", "ns1ns", "d1h1", "010m", "0100ms", "1m08s", "08s", "09h", "007d", "0x10s", "0b1s", "0o7s", "1_0s", "1µ2m", "5µ1m", "7µ1m", "1µm", "µm", "1µ1µ1m", "3µ4ms", "1e3s", "+5m"} {
+		"5\u0173", "1\u0168", "2\u0164", "3\u0177", "7\u0175", "1h30\u2173", "-4\U0001F468", "1\u0273", "1\u016d", "1\u026e\u0273", "5\u1e73", "h1", "s10", "h1m30", "-w1d1", "m", "ms5", "1h2", "1h m", "h", "1hh1", "µ1", "u1u", "1s2m3", "ns1ns", "d1h1", "010m", "0100ms", "1m08s", "08s", "09h", "007d", "0x10s", "0b1s", "0o7s", "1_0s", "1µ2m", "5µ1m", "7µ1m", "1µm", "µm", "1µ1µ1m", "3µ4ms", "1e3s", "+5m"} {
 		c08Parse(o, w, "witness")
 	}
 	// lengths at which a fixed buffer would end: digits (leading zeros keep the value small), components, and both
@@ -359,6 +359,24 @@ func propC08(o *out, r *rng, thorough bool) {
 			d >>= uint(r.intn(60))
 		}
 		c08Format(o, d, "format-random")
+	}
+	// the same spelling twice in one text, once under a minus sign: each occurrence is its own value
+	for _, text := range []string{"SELECT mean(v) FROM m GROUP BY time(10m, -10m)", "SELECT v FROM m WHERE time > -30s; SELECT mean(v) FROM m GROUP BY time(30s)", "SELECT v FROM m WHERE d = 5m30s + -5m30s",
+		"SELECT mean(v) FROM m GROUP BY time(1h, -15m); SELECT mean(v) FROM m GROUP BY time(15m)", "SELECT -1h, 1h, - 1h, +1h FROM m", "SELECT v FROM m WHERE a = -7 AND b = 7 AND c = -7 AND d = -1.5 AND e = 1.5"} {
+		addParseQueryCase(o, text, nil)
+		o.count("repeated-spelling")
+		o.checked()
+		q, err := influxql.ParseQuery(text)
+		if err != nil {
+			continue
+		}
+		for i, part := range strings.Split(text, ";") {
+			alone, err := influxql.ParseStatement(part)
+			if err != nil || i >= len(q.Statements) || stmtSexp(alone) != stmtSexp(q.Statements[i]) {
+				o.fail("", fmt.Sprintf("statement %d of %q differs from parsing it alone: %v", i, text, q.Statements[i]), map[string]interface{}{"op": "duration_repeat", "text": text})
+				break
+			}
+		}
 	}
 	for _, lit := range []string{"1h", "90m", "1h30m", "5124096h", "15251w", "2562047h47m16s854ms775u807ns", "106751d23h47m16s854ms775u808ns", "0s", "1ns", "3µ", "7u", "10ms", "1w2d"} {
 		c08InStatement(o, lit)
